@@ -333,22 +333,17 @@ Qed.
 Definition names_wf (g : cfg) : Prop :=
   (forall p t, fid g p = fid g t -> pi_fmt (pinfo_of g p) = pi_fmt (pinfo_of g t))
   /\ (forall x n, g_tclass g (g_tclass g x n) n = g_tclass g x n).
+(* the name a proxy reads / an array was mapped from *)
+Definition src_path (x : src) : option nat :=
+  match x with SProxy p _ _ _ => Some p | SMap p _ _ => Some p | SArray _ => None end.
 Definition classes_ok (g : cfg) (w : world) : Prop :=
-  (forall s im p d k mm, img_at w s = Some im -> i_src im = SProxy p d k mm ->
-                         g_tclass g (i_fmt im) (pi_fmt (pinfo_of g p)) = i_fmt im)
+  (forall s im p, img_at w s = Some im -> src_path (i_src im) = Some p ->
+                  g_tclass g (i_fmt im) (pi_fmt (pinfo_of g p)) = i_fmt im)
   /\ (forall p c, file_at w (fid g p) = Some c -> g_tclass g (k_cls c) (pi_fmt (pinfo_of g p)) = k_cls c).
-
-(* the saver's own array is a memory map of the target file (an image built around such a map): what it
-   holds afterwards is whatever the file holds - S-C09b's domain, excluded here *)
-Definition own_array_maps (g : cfg) (w : world) (s t : nat) : bool :=
-  match img_at w s with
-  | Some im => match i_src im with SMap p _ _ => Nat.eqb (fid g p) (fid g t) | _ => false end
-  | None => false
-  end.
 
 Definition usable (g : cfg) (w : world) (o : op) (w' : world) (x : out) : Prop :=
   forall s t hd v d a k, save_op o = Some (s, t, hd) -> x = OSaved t v d a k ->
-    backed g w -> own_array_maps g w s t = false ->
+    backed g w ->
     ~ (g_mixed g = true /\ d = U1) ->
     exists im', img_at w' s = Some im' /\ denote g (w_fs w') im' = RVal v.
 
@@ -356,10 +351,11 @@ Lemma fmt_eqb_refl f : fmt_eqb f f = true.
 Proof. destruct f; reflexivity. Qed.
 
 Lemma usable_step g w o :
-  g_fix g = true -> g_viewfix g = true -> g_reshape_ok g = true -> g_repoint g = true -> names_wf g -> classes_ok g w ->
+  g_fix g = true -> g_viewfix g = true -> g_reshape_ok g = true -> g_repoint g = true -> g_maprepoint g = true ->
+  names_wf g -> classes_ok g w ->
   usable g w o (fst (step g w o)) (snd (step g w o)).
 Proof.
-  intros Hf Hvf Hr Hp [Hn _] [Hc _] s t hd v d a k Hs Hx B Hown Hclip.
+  intros Hf Hvf Hr Hp Hmr [Hn _] [Hc _] s t hd v d a k Hs Hx B Hclip.
   destruct (decodes_step g w o Hf Hvf s t hd v d a k Hs Hx B)
     as (im0 & v0 & Hi & Hd & Ho & Ha & Hft & Hv & Hk & Hoth & _ & Hslot).
   set (c := written g (tfmt g im0 t) d v0 a) in *.
@@ -368,18 +364,24 @@ Proof.
   assert (Hd0 : denote g (w_fs w) im0 = RVal v0).
   { unfold reshaped in Hd. rewrite Hr in Hd. cbn [negb] in Hd. rewrite andb_false_r in Hd.
     unfold denote in *. rewrite src_with_hdt in Hd. exact Hd. }
+  (* an image whose proxy reads, or whose array maps, the target file is of the target's class: no conversion *)
+  assert (Hcls : forall p, src_path (i_src im0) = Some p -> fid g p = fid g t -> fmt_eqb (i_fmt im0) (tfmt g im0 t) = true).
+  { intros p Hp0 He. unfold tfmt. rewrite <- (Hn p t He), (Hc s im0 p Hi Hp0). apply fmt_eqb_refl. }
   destruct (repoints g im0 (tfmt g im0 t) t) eqn:Er.
   - exists (repointed im0 v0). split; [exact Hslot|]. rewrite Hv0. reflexivity.
   - exists im0. split; [exact Hslot|]. rewrite Hv0.
     unfold denote in *. destruct (i_src im0) as [vv|p ds ks mm|p ds cv] eqn:Es; [exact Hd0| |].
     + unfold fresh_read in *. destruct (Nat.eq_dec (fid g p) (fid g t)) as [He|Hne].
       * (* a proxy of the target file is always re-pointed *)
-        exfalso. unfold repoints, tfmt in Er. rewrite Hp, Es, He, Nat.eqb_refl in Er.
-        rewrite <- (Hn p t He), (Hc s im0 p ds ks mm Hi Es), fmt_eqb_refl in Er. discriminate.
+        exfalso. unfold repoints in Er. rewrite (Hcls p eq_refl He), Hp, Es, He, Nat.eqb_refl in Er. discriminate.
       * specialize (Hoth (fid g p) Hne). unfold file_at in Hoth. rewrite Hoth. exact Hd0.
-    + (* an array that maps another file: that file is untouched *)
-      unfold own_array_maps in Hown. rewrite Hi, Es in Hown. apply Nat.eqb_neq in Hown.
-      unfold alias_read in *. specialize (Hoth (fid g p) Hown). unfold file_at in Hoth. rewrite Hoth. exact Hd0.
+    + destruct (Nat.eq_dec (fid g p) (fid g t)) as [He|Hne].
+      * (* an array mapped from the target was copied by unmap_if_target: that copy is the image's data now *)
+        exfalso. unfold repoints in Er. rewrite (Hcls p eq_refl He), Hmr, Hf in Er.
+        unfold recognised, mapped in Er. rewrite Es, Hvf, He, Nat.eqb_refl, orb_true_r in Er.
+        cbn in Er. rewrite orb_true_r in Er. discriminate.
+      * (* an array that maps another file: that file is untouched *)
+        unfold alias_read in *. specialize (Hoth (fid g p) Hne). unfold file_at in Hoth. rewrite Hoth. exact Hd0.
 Qed.
 
 Lemma classes_ok_step g w o : names_wf g -> classes_ok g w -> classes_ok g (fst (step g w o)).
@@ -388,14 +390,14 @@ Proof.
   destruct Hc as [Hc Hfs].
   (* operations that leave the files alone and set one image slot *)
   assert (SETW : forall w1 s im, w_fs w1 = w_fs w -> w_imgs w1 = w_imgs w ->
-                   (forall p d k mm, i_src im = SProxy p d k mm -> g_tclass g (i_fmt im) (pi_fmt (pinfo_of g p)) = i_fmt im) ->
+                   (forall p, src_path (i_src im) = Some p -> g_tclass g (i_fmt im) (pi_fmt (pinfo_of g p)) = i_fmt im) ->
                    classes_ok g (set_img w1 s im)).
   { intros w1 s im E1 E2 H. split.
-    - intros s' im' p d k mm Hi Hs. rewrite img_at_set in Hi. unfold img_at in Hi. rewrite E2 in Hi. destruct (Nat.eqb s' s).
+    - intros s' im' p Hi Hs. rewrite img_at_set in Hi. unfold img_at in Hi. rewrite E2 in Hi. destruct (Nat.eqb s' s).
       + destruct (s <? length (w_imgs w))%nat; [|discriminate]. inversion Hi; subst. eapply H; eauto.
       + eapply Hc; eauto.
     - intros p c Hp. unfold file_at, set_img in Hp; cbn [w_fs] in Hp. rewrite E1 in Hp. now apply Hfs. }
-  assert (SET : forall s im, (forall p d k mm, i_src im = SProxy p d k mm ->
+  assert (SET : forall s im, (forall p, src_path (i_src im) = Some p ->
                                 g_tclass g (i_fmt im) (pi_fmt (pinfo_of g p)) = i_fmt im) ->
                              classes_ok g (set_img w s im)) by (intros; now apply SETW).
   assert (SAME : classes_ok g w) by (split; assumption).
@@ -403,7 +405,7 @@ Proof.
   { intros s t hd.
     destruct (do_save_shape g w s t hd) as [E|[E|(im0 & c & imgs' & Hi & Hlt & Hk & Himgs & E)]]; rewrite E;
       [exact SAME|exact SAME|]. split.
-    - intros s' im' p d k mm Hi' Hs'. unfold img_at in Hi'; cbn [w_imgs] in Hi'.
+    - intros s' im' p Hi' Hs'. unfold img_at in Hi'; cbn [w_imgs] in Hi'.
       destruct Himgs as [->|[v ->]]; [eapply Hc; eauto|].
       destruct (Nat.eq_dec s' s) as [->|Hne].
       + rewrite nth_upd_same in Hi' by (eapply img_at_lt; eauto). inversion Hi'; subst. discriminate.
@@ -420,41 +422,42 @@ Proof.
   { intros s. unfold do_fdata. destruct (img_at w s) as [im|] eqn:Hi; [|repeat split; auto].
     destruct (i_cache im) as [|cv|cp cd]; [| repeat split; auto |destruct (alias_read g (w_fs w) cp cd); repeat split; auto].
     destruct (denote g (w_fs w) im) as [v| |]; [|repeat split; auto|repeat split; auto]. cbn [fst].
-    split; [apply SET; intros p d k mm E; exact (Hc s im p d k mm Hi E)|]. split; [reflexivity|]. split.
+    split; [apply SET; intros p E; exact (Hc s im p Hi E)|]. split; [reflexivity|]. split.
     - intros s' Hne. rewrite img_at_set. apply Nat.eqb_neq in Hne. now rewrite Hne.
     - unfold set_img; cbn [w_imgs]. apply upd_length. }
   destruct o; try apply SV.
   - unfold do_load. destruct (file_at w (fid g p)) as [c|] eqn:Hfa; [|exact SAME].
     destruct (s <? length (w_imgs w))%nat; [|exact SAME]. cbn [fst]. apply SET.
-    intros p0 d0 k0 mm0 E. inversion E; subst. cbn [i_fmt]. now apply Hfs.
+    intros p0 E. inversion E; subst. cbn [i_fmt]. now apply Hfs.
   - apply FD.
-  - destruct (img_at w s) as [im|] eqn:Hi; [|exact SAME]. cbn [fst]. apply SET. intros p d k mm E. exact (Hc s im p d k mm Hi E).
+  - destruct (img_at w s) as [im|] eqn:Hi; [|exact SAME]. cbn [fst]. apply SET. intros p E. exact (Hc s im p Hi E).
   - destruct (img_at w s); exact SAME.
-  - destruct (img_at w s) as [im|] eqn:Hi; [|exact SAME]. cbn [fst]. apply SET. intros p d k mm E. exact (Hc s im p d k mm Hi E).
-  - destruct (img_at w s) as [im|] eqn:Hi; [|exact SAME]. cbn [fst]. apply SET. intros p d k mm E. exact (Hc s im p d k mm Hi E).
+  - destruct (img_at w s) as [im|] eqn:Hi; [|exact SAME]. cbn [fst]. apply SET. intros p E. exact (Hc s im p Hi E).
+  - destruct (img_at w s) as [im|] eqn:Hi; [|exact SAME]. cbn [fst]. apply SET. intros p E. exact (Hc s im p Hi E).
   - (* ToFilename *)
     destruct (img_at w s) as [im|]; [|exact SAME]. destruct (fmt_eqb _ _); [apply SV|exact SAME].
   - (* Clone *)
     destruct (img_at w s) as [im|] eqn:Hi; [|exact SAME]. destruct (s2 <? length (w_imgs w))%nat; [|exact SAME].
-    cbn [fst]. apply SET. intros p d k mm E. exact (Hc s im p d k mm Hi E).
+    cbn [fst]. apply SET. intros p E. exact (Hc s im p Hi E).
   - (* Wrap: the new image is an array image, never a proxy *)
     unfold do_wrap. destruct (img_at w s) as [im|] eqn:Hi; [|exact SAME].
     destruct (negb (s2 <? length (w_imgs w))%nat); [exact SAME|].
-    assert (NP : forall v p d k mm, wrapped_src g im how v <> SProxy p d k mm).
-    { intros v p d k mm. unfold wrapped_src. destruct (i_src im) as [|p0 d0 k0 mm0|p0 d0 c0].
+    assert (NP : forall v p, src_path (wrapped_src g im how v) = Some p -> src_path (i_src im) = Some p).
+    { intros v p. unfold wrapped_src. destruct (i_src im) as [|p0 d0 k0 mm0|p0 d0 c0].
       - discriminate.
-      - destruct (_ && _ && _); [|discriminate]. destruct how; try discriminate. destruct (aliasable g im); discriminate.
-      - destruct how; try discriminate. destruct (aliasable g im); discriminate. }
+      - destruct (_ && _ && _); [|discriminate]. destruct how; try (intros E; exact E). destruct (aliasable g im); [intros E; exact E|discriminate].
+      - destruct how; try (intros E; exact E). destruct (aliasable g im); [intros E; exact E|discriminate]. }
     destruct how.
-    + destruct (denote g (w_fs w) im); try exact SAME. cbn [fst]. apply SET. intros p d k mm E. cbn [i_src] in E. now apply NP in E.
+    + destruct (denote g (w_fs w) im); try exact SAME. cbn [fst]. apply SET. intros p E. cbn [i_src i_fmt] in *. exact (Hc s im p Hi (NP _ _ E)).
     + destruct (FD s) as (C1 & F1 & I1 & L1). destruct (do_fdata g w s) as [w1 x]. cbn [fst] in *.
       destruct x; cbn [fst]; try exact C1; try exact SAME.
       destruct C1 as [C1a C1b]. split.
-      * intros s' im' p d k mm Hi' Hs'. rewrite img_at_set in Hi'. destruct (Nat.eqb s' s2).
-        -- destruct (s2 <? length (w_imgs w1))%nat; [|discriminate]. inversion Hi'; subst. cbn [i_src] in Hs'. now apply NP in Hs'.
+      * intros s' im' p Hi' Hs'. rewrite img_at_set in Hi'. destruct (Nat.eqb s' s2).
+        -- destruct (s2 <? length (w_imgs w1))%nat; [|discriminate]. inversion Hi'; subst. cbn [i_src i_fmt] in *.
+           exact (Hc s im p Hi (NP _ _ Hs')).
         -- eapply C1a; eauto.
       * intros p c Hp. unfold file_at, set_img in Hp; cbn [w_fs] in Hp. now apply C1b.
-    + destruct (denote g (w_fs w) im); try exact SAME. cbn [fst]. apply SET. intros p d k mm E. cbn [i_src] in E. now apply NP in E.
+    + destruct (denote g (w_fs w) im); try exact SAME. cbn [fst]. apply SET. intros p E. cbn [i_src i_fmt] in *. exact (Hc s im p Hi (NP _ _ E)).
   - (* EditMap *)
     destruct (img_at w s) as [im|]; [|exact SAME]. destruct (i_src im); try exact SAME.
     destruct (denote g (w_fs w) im); exact SAME.
@@ -464,10 +467,11 @@ Proof.
 Qed.
 
 Lemma usable_all g ops w :
-  g_fix g = true -> g_viewfix g = true -> g_reshape_ok g = true -> g_repoint g = true -> names_wf g -> classes_ok g w ->
+  g_fix g = true -> g_viewfix g = true -> g_reshape_ok g = true -> g_repoint g = true -> g_maprepoint g = true ->
+  names_wf g -> classes_ok g w ->
   r_all (usable g) g w ops.
 Proof.
-  intros Hf Hvf Hr Hp Hn Hc. apply (r_all_lift (classes_ok g)); [|exact Hc].
+  intros Hf Hvf Hr Hp Hmr Hn Hc. apply (r_all_lift (classes_ok g)); [|exact Hc].
   intros w0 o Hc0. split; [now apply usable_step|now apply classes_ok_step].
 Qed.
 
@@ -477,7 +481,7 @@ Lemma no_proxies_classes_ok g w :
   (forall p c, file_at w (fid g p) = Some c -> g_tclass g (k_cls c) (pi_fmt (pinfo_of g p)) = k_cls c) ->
   classes_ok g w.
 Proof.
-  intros H Hfs. split; [|exact Hfs]. intros s im p d k mm Hi Hs. destruct (H s im Hi) as [v E]. rewrite E in Hs. discriminate.
+  intros H Hfs. split; [|exact Hfs]. intros s im p Hi Hs. destruct (H s im Hi) as [v E]. rewrite E in Hs. discriminate.
 Qed.
 
 Lemma platform_names_wf n paths fids fx sc mx ld :
